@@ -12,9 +12,9 @@ Open Scope N_scope.
 Local Opaque float_overflow.
 
 Ltac gen_classes t :=
-  unfold gen_accept, conv_ok, ch_a, ch_r, ch_c, ch_b, ch_s, ch_pct;
+  rewrite gen_accept_v_is_model;
+  unfold type_accept_v, conv_ok, c_limit, ch_a, ch_r, ch_c, ch_b, ch_s, ch_pct;
   rewrite integer_set_is_idx, numeric_set_is_classes;
-  replace (mem t [97; 114]) with ((t =? 97) || (t =? 114)) by (unfold mem; simpl; rewrite orb_false_r; reflexivity);
   destruct (is_idx t); simpl orb;
   [|destruct (is_dec t); simpl orb;
   [|destruct (is_flt t); simpl orb;
